@@ -385,6 +385,14 @@ def rule_pair_sync_flag(ctx):
     ADT, FIELD = 'common::concurrent::housekeeper::Housekeeper', 'is_sync_running'
     if not ctx.has_sync:
         return r
+    if not any(f_['name'] == FIELD for v_ in (ctx.prog.adts.get(ADT) or {'variants': []})['variants'] for f_ in v_['fields']):
+        # the flag was moved into a nested struct of the housekeeper: the housekeeper's field that holds that struct takes its place
+        from .roles import sync_flag_fields
+        ff = sync_flag_fields(ctx.prog)
+        holder = [f_['name'] for v_ in (ctx.prog.adts.get(ADT) or {'variants': []})['variants'] for f_ in v_['fields']
+                  if any(norm(str((f_['ty'] or {}).get('adt') or '')) == a_ for a_, _n in ff)]
+        if len(ff) == 1 and len(holder) == 1:
+            FIELD = holder[0]
     fdef = ctx.adt_field(ADT, FIELD)
     sites = _flag_sites(ctx, ADT, FIELD)
     fns = sorted({s[0] for s in sites})
@@ -669,7 +677,31 @@ def _finite_wrapper(ctx, nid, _stack=()):
             heads = [x.replace('&mut ', '').replace('&', '').strip() for x in (t.get('self_ty', {}).get('s', ''), b.local_ty(al)['s'] if al is not None else '')]
             if any(h.startswith(FINITE_ITER_HINTS) for h in heads if h):
                 return True
-    return False
+    # loop-free counter: every call that yields an item has found an integer field of the iterator below a constant bound and leaves it
+    # incremented by a positive constant (`if self.depth >= DEPTH { return None } .. self.depth += 1`)
+    from .symex import PathLimit as _PL4, subterms as _st
+    try:
+        ps = [p for p in ctx.symex(inline_depth=1, loop_visits=2).run(nid) if not p.diverged]
+    except _PL4:
+        return False
+    some = [p for p in ps if isinstance(p.ret, tuple) and p.ret and p.ret[0] == 'aggr' and p.ret[2] == 'Some']
+    if not some or not any(p.ret == ('aggr', 'std::option::Option', 'None', ()) for p in ps):
+        return False
+    for p in some:
+        ok = False
+        for e in p.events:
+            if e[0] == 'write' and isinstance(e[1], tuple) and e[1][0] == 'fld' and e[1][1] == ('param', 1):
+                v, f0 = e[2], e[1]
+                inc = isinstance(v, tuple) and v and v[0] == 'bin' and v[1] in ('Add', 'AddUnchecked') and v[2] == f0 and isinstance(v[3], tuple) and v[3][0] == 'c' and \
+                    isinstance(v[3][1], int) and v[3][1] > 0
+                below = any(isinstance(c, tuple) and c and c[0] == 'cmp' and (
+                    (c[1] == 'le' and val is False and c[3] == f0 and isinstance(c[2], tuple) and c[2][0] == 'c') or
+                    (c[1] == 'lt' and val is True and c[2] == f0 and isinstance(c[3], tuple) and c[3][0] == 'c')) for c, val in p.conds)
+                if inc and below:
+                    ok = True
+        if not ok:
+            return False
+    return True
 
 
 def _must_pass(b, h, body, S):
@@ -716,6 +748,30 @@ PROGRESS_TABLE = {
 }
 
 
+def _no_two_empty_trips(ctx, b, h, is_progress):
+    """Path-sensitive form of 'every iteration makes progress' for loops whose iterations differ by a state variable (state machines): on
+    every explored iteration sequence of the body (5 visits of the header, abandoned prefixes included) no two consecutive trips go by
+    without a progress event.  None when it cannot be decided."""
+    from .symex import PathLimit as _PL3
+    try:
+        seqs = ctx.symex(inline_depth=1, loop_visits=5, trip_events=True, emit_cut=True, inline_pred=lambda n_, bb, d: False).run(b.nid)
+    except _PL3:
+        return None
+    trips_seen = 0
+    for p in seqs:
+        empty, has = 0, True
+        for e in p.events:
+            if e[0] == 'trip' and e[2] == h:
+                trips_seen += 1
+                empty = 0 if has else empty + 1
+                if empty >= 2:
+                    return False
+                has = False
+            elif is_progress(e):
+                has = True
+    return True if trips_seen >= 4 else None
+
+
 def rule_loops(ctx):
     r = RuleResult('LOOP-bounded', 'every loop is driven by a finite std iterator or a counter incremented on every '
                    'iteration, or is a listed loop whose every iteration performs its progress step '
@@ -760,8 +816,11 @@ def rule_loops(ctx):
                         if str(tb_.locals[0]['ty'].get('adt') or '') == 'std::iter::Successors' and any(
                                 ('read', 'common::deque::DeqNode', 'next') in eff.transitive(c_) for c_ in prog.closures_of.get(tg_, [])):
                             succ_iter = True
+                # (the accessor may be wrapped: an in-crate iterator's next() that calls it counts through its own small body)
                 S = _blocks_calling(ctx, b, body, lambda tg, ext, ps, t: any(
-                    ('read', 'common::deque::DeqNode', 'next') in eff.direct.get(x, ()) for x in tg) or
+                    ('read', 'common::deque::DeqNode', 'next') in eff.direct.get(x, ()) or
+                    (prog.bodies[x].name == 'next' and not prog.bodies[x].loops() and len(prog.bodies[x].blocks) <= 25 and ('read', 'common::deque::DeqNode', 'next') in eff.transitive(x))
+                    for x in tg) or
                     (succ_iter and ext == '<std::iter::Successors as std::iter::Iterator>::next'))
                 # the advanced cursor must be the value the loop consumes (assigned to the scanned local)
             elif role == 'housekeeping':
@@ -772,6 +831,11 @@ def rule_loops(ctx):
                     return False
                 S = _blocks_calling(ctx, b, body, hk)
             ok = bool(S) and _must_pass(b, h, body, S)
+            if not ok and S and role == 'housekeeping':
+                hk_fns = {x for x in prog.bodies if any(y.endswith('housekeeper::Housekeeper::try_sync') for y in prog.reachable_from([x]))}
+                if _no_two_empty_trips(ctx, b, h, lambda e: e[0] == 'call' and e[1] in hk_fns):
+                    ok = True
+                    reason = reason + ' [decided on iteration sequences: the iterations differ by a state variable, no two consecutive ones skip the step]'
             r.instance(function=nid, header='bb%d' % h, driver='listed:' + role, reason=reason, progress_blocks=sorted(S), holds=ok)
             if not ok:
                 r.violate(nid, 'loop-without-progress', role,
@@ -809,6 +873,38 @@ def rule_loop_retry(ctx):
             reach = b.reach(h, avoid=S)
             if any(s in reach for s in sends):
                 before = False
+            if not ok or not before:
+                # the control-flow graph alone does not show it (e.g. a state machine: `loop { state = match state { Ready => try, Full => wait .. } }`):
+                # decide on the explored iteration sequences instead -- every try_send has the housekeeping call between it and the previous
+                # try_send (or the start), and no two consecutive trips go by without one
+                from .symex import PathLimit as _PL2
+                hk_fns = {x for x in prog.bodies if any(y.endswith('housekeeper::Housekeeper::try_sync') for y in prog.reachable_from([x]))}
+                try:
+                    seqs = ctx.symex(inline_depth=1, loop_visits=5, trip_events=True, emit_cut=True, inline_pred=lambda n_, bb, d: False).run(b.nid)
+                except _PL2:
+                    seqs = None
+                if seqs:
+                    good, trips_seen = True, 0
+                    for p in seqs:
+                        since_hk = False     # housekeeping seen since the last try_send / start
+                        empty_trips = 0
+                        trip_has = True
+                        for e in p.events:
+                            if e[0] == 'trip' and e[2] == h:
+                                trips_seen += 1
+                                empty_trips = 0 if trip_has else empty_trips + 1
+                                if empty_trips >= 2:
+                                    good = False
+                                trip_has = False
+                            elif e[0] == 'call' and e[1] in hk_fns:
+                                since_hk, trip_has = True, True
+                            elif e[0] == 'call' and e[1] == 'crossbeam_channel::Sender::try_send':
+                                if not since_hk:
+                                    good = False
+                                since_hk = False
+                    if good and trips_seen >= 4:
+                        ok, before = True, True
+                        r.instance(function=b.nid, header='bb%d' % h, decided_on='iteration sequences (state machine)', sequences=len(seqs))
             r.instance(function=b.nid, header='bb%d' % h, housekeeping_blocks=sorted(S), every_iteration=ok, before_send=before)
             if not ok or not before:
                 r.violate(b.nid, 'retry-without-housekeeping', 'try_send-loop',
@@ -1002,6 +1098,16 @@ def rule_flush_trigger(ctx):
                                 ks.add('read')
                         if isinstance(y, tuple) and y and y[0] == 'fld' and y[2] in ('write_op_ch', 'read_op_ch'):
                             ks.add('write' if y[2] == 'write_op_ch' else 'read')
+                        elif isinstance(y, tuple) and y and y[0] == 'fld' and isinstance(y[2], str):
+                            # any state field declared as a channel end of read / write ops (whatever it is called, wherever it is nested)
+                            for a_ in prog.adts.values():
+                                for v_ in a_['variants']:
+                                    for f_ in v_['fields']:
+                                        if f_['name'] == y[2] and 'crossbeam_channel::' in f_['ty']['s']:
+                                            if 'WriteOp' in f_['ty']['s']:
+                                                ks.add('write')
+                                            if 'ReadOp' in f_['ty']['s']:
+                                                ks.add('read')
             return ks
         for p in paths:
             if any(e[0] == 'call' and e[1] in R.try_sync for e in p.events):
